@@ -9,7 +9,7 @@ import re
 
 from .. import defs
 from ..common import pmap
-from ..sandbox import Sandbox, parse_status_table, parse_submission, parse_summary
+from ..sandbox import Sandbox, parse_status_table, parse_submission, parse_summary  # noqa: F401
 
 STATUS_NAMES = ["shouldrun", "submitted", "running", "completed", "failed", "cancelled"]
 
